@@ -223,7 +223,10 @@ class Transmission(WithObservers, LoggingTrait):
         ]:
             burst.set_is_voice(VoiceBursts(self.last_voice_burst.value + 1))
 
-        self.last_voice_burst = burst.voice_burst
+        if burst.is_voice_superframe_start or burst.data_type == DataTypes.Reserved:
+            # position in the voice superframe moves with voice bursts only, a header / CSBK / data
+            # burst heard in between does not wipe it
+            self.last_voice_burst = burst.voice_burst
         self.last_burst_data_type = burst.data_type
 
         return burst
